@@ -592,15 +592,16 @@ func (k *c09) checkCall(t *Terminal, e *Event, fname, pos string, nPre, nNil *in
 		src, dst := e.Args[2], e.Args[1]
 		okPre := false
 		mode, _ := stripIface(e.Args[0]).(*CallV)
-		var blkSize string
+		var blkSize, blkKey string
 		if mode != nil && shortName(mode.Callee) == "crypto/cipher.NewCBCDecrypter" {
 			blkSize = ap(mkCall("(crypto/cipher.Block).BlockSize", nil, []Val{mode.Args[0]}, "", 0, 1, types.Typ[types.Int]))
+			blkKey = mkCall("(crypto/cipher.Block).BlockSize", nil, []Val{mode.Args[0]}, "", 0, 1, types.Typ[types.Int]).Key()
 		}
 		b := newBounds(t, e.Seq)
 		if s, ok := src.(*SliceV); ok && s.Hi == nil && blkSize != "" {
 			loOK := s.Lo == nil || ap(s.Lo) == blkSize
 			for _, d := range b.divL {
-				if d.x.String() == b.linOf(mkLen(t.St, s.X, types.Typ[types.Int])).String() && len(d.m.t) == 1 && d.m.t[blkSize] == 1 && d.m.k == 0 {
+				if d.x.String() == b.linOf(mkLen(t.St, s.X, types.Typ[types.Int])).String() && len(d.m.t) == 1 && d.m.t[blkKey] == 1 && d.m.k == 0 {
 					okPre = loOK
 				}
 			}
